@@ -223,6 +223,16 @@ fn long_docs(lens: &[usize], dev: usize) -> Vec<(Value, Value)> {
             let objs: Vec<Value> = (0..len).map(|i| json!({"k": if p.contains(&i) { 0 } else { 1 }, "i": i})).collect();
             let plain: Vec<Value> = (0..len).map(|i| if p.contains(&i) { json!(1.0) } else { json!(1) }).collect();
             out.push((Value::Array(objs), Value::Array(plain)));
+            // already ascending / descending input with the deviating positions moved to an extreme or
+            // made equal to a neighbour (a fast path for sorted input would show here)
+            if !p.is_empty() {
+                for desc in [false, true] {
+                    let key = |i: usize| -> i64 { if desc { (len - i) as i64 * 2 } else { i as i64 * 2 } };
+                    let objs: Vec<Value> = (0..len).map(|i| json!({"k": if p.contains(&i) { if i % 2 == 0 { -1 } else { key((i + 1) % len) } } else { key(i) }, "i": i})).collect();
+                    let plain: Vec<Value> = objs.iter().map(|o| if o["i"].as_u64().unwrap() % 3 == 0 { json!(o["k"].as_i64().unwrap() as f64) } else { o["k"].clone() }).collect();
+                    out.push((Value::Array(objs), Value::Array(plain)));
+                }
+            }
         }
     }
     out
@@ -243,6 +253,111 @@ pub fn run(tier: Tier) -> i32 {
     for x in &nums {
         for f in ["abs", "ceil", "floor", "to_number", "to_string", "type", "to_array"] {
             call(&format!("{}(x)", f), &json!({ "x": x }), &mut st);
+        }
+    }
+    // magnitude thresholds: 2^p and 10^k neighbourhoods (integer and float spellings, halves), where an
+    // arithmetic shortcut (f32, i32/u32, 2^53 exactness, the change of printing form) would first differ
+    {
+        let mut thr: Vec<Value> = Vec::new();
+        for p in [7u32, 8, 15, 16, 23, 24, 25, 31, 32, 33, 52, 53, 54, 62, 63] {
+            for dlt in [-1i128, 0, 1] {
+                let v: i128 = (1i128 << p) + dlt;
+                if v <= i64::MAX as i128 {
+                    thr.push(json!(v as i64));
+                    thr.push(json!(-(v as i64)));
+                } else {
+                    thr.push(json!(v as u64));
+                }
+                thr.push(json!(v as f64));
+                thr.push(json!(-(v as f64)));
+                if p <= 51 {
+                    thr.push(json!(v as f64 + 0.5));
+                    thr.push(json!(-(v as f64) - 0.5));
+                    thr.push(json!(v as f64 + 0.25));
+                    thr.push(json!(-(v as f64) + 0.25));
+                }
+            }
+        }
+        let mut pw: i128 = 1;
+        for k in 0..=22i32 {
+            for dlt in [-1i128, 0, 1] {
+                let v = pw + dlt;
+                if v >= 0 && v <= u64::MAX as i128 {
+                    thr.push(json!(v as u64));
+                    if v <= i64::MAX as i128 {
+                        thr.push(json!(-(v as i64)));
+                    }
+                }
+            }
+            thr.push(json!(10f64.powi(k)));
+            thr.push(json!(-(10f64.powi(k))));
+            thr.push(json!(10f64.powi(k) * 1.5));
+            thr.push(json!(10f64.powi(-k)));
+            thr.push(json!(-(10f64.powi(-k)) * 2.5));
+            pw = pw.saturating_mul(10);
+        }
+        thr.extend([json!(0.1), json!(0.2), json!(0.30000000000000004), json!(123456789012345680000.0), json!(1.7976931348623157e308), json!(5e-324), json!(2.2250738585072014e-308), json!(4503599627370495.5), json!(-4503599627370495.5), json!(4503599627370496.5)]);
+        let s0 = par_sweep(thr.chunks(8).map(|c| c.to_vec()).collect(), |chunk: &Vec<Value>, st| {
+            for x in chunk {
+                let d = json!({ "x": x, "y": [x, 0], "z": [x, x, x] });
+                for f in ["abs(x)", "ceil(x)", "floor(x)", "to_number(x)", "to_string(x)", "type(x)", "to_array(x)", "to_number(to_string(x))", "sum(y)", "sum(z)", "avg(z)", "max(y)", "min(y)", "sort(y)", "sum([x])", "avg([x])", "max(z)", "abs(abs(x))", "ceil(floor(x))", "floor(ceil(x))", "not_null(x)", "reverse(y)", "contains(z, x)", "length(to_string(x))"] {
+                    call(f, &d, st);
+                }
+            }
+        });
+        st = st.merge(s0);
+    }
+    // strings of medium length (around 8, 16, 32, 64, 128, 256 characters): all-ASCII, and with one
+    // character at each position replaced by a 1-, 2- or 4-byte one -- a fast path for ASCII-only or
+    // short strings would differ here; needles are prefixes, suffixes and infixes of the subject
+    {
+        let lens: Vec<usize> = tier.pick(vec![7, 8, 9, 15, 16, 17, 31, 32, 33, 63, 64, 65, 128], vec![7, 8, 9, 15, 16, 17, 23, 24, 25, 31, 32, 33, 47, 48, 49, 63, 64, 65, 127, 128, 129, 255, 256, 257]);
+        let sl = par_sweep(lens, |&n, st| {
+            let base: Vec<char> = (0..n).map(|i| (b'a' + (i % 3) as u8) as char).collect();
+            let mut subjects: Vec<String> = vec![base.iter().collect()];
+            let step = if n > 70 { n / 16 } else { 1 };
+            for pos in (0..n).step_by(step).chain([n - 1]) {
+                for c in ['z', 'é', '😀', '\u{301}'] {
+                    let mut t = base.clone();
+                    t[pos] = c;
+                    subjects.push(t.iter().collect());
+                }
+            }
+            for s in &subjects {
+                let cs: Vec<char> = s.chars().collect();
+                let d = json!({ "x": s });
+                for f in ["length(x)", "reverse(x)", "to_string(x)", "to_array(x)", "to_number(x)", "reverse(reverse(x))", "length(reverse(x))", "join(x, [x, x])", "sort([x, x])", "max([x, 'a'])", "contains([x], x)"] {
+                    call(f, &d, st);
+                }
+                let mut needles: Vec<String> = Vec::new();
+                for k in [1usize, 2, n / 2, n - 1, n] {
+                    needles.push(cs[..k].iter().collect());
+                    needles.push(cs[n - k..].iter().collect());
+                    needles.push(cs[(n - k) / 2..(n - k) / 2 + k].iter().collect());
+                }
+                needles.push(format!("{}a", s));
+                needles.push(format!("a{}", s));
+                needles.push(base.iter().collect());
+                needles.sort();
+                needles.dedup();
+                for y in &needles {
+                    let d2 = json!({"x": s, "y": y});
+                    for f in ["starts_with(x, y)", "ends_with(x, y)", "contains(x, y)", "starts_with(y, x)", "ends_with(y, x)", "contains(y, x)"] {
+                        check_call_expr_p("C02", f, &d2, "medium-strings", st);
+                    }
+                }
+            }
+        });
+        st = st.merge(sl);
+    }
+    // strings related by prefix, case and a NUL: the order is by code point, a shorter prefix first
+    {
+        let pre = [json!("a"), json!("aa"), json!("ab"), json!("a\u{0}"), json!("B"), json!("~"), json!("")];
+        for a in seqs(&pre, 3) {
+            let d = json!({ "x": a });
+            for f in ["sort(x)", "max(x)", "min(x)", "sort_by(x, &@)", "max_by(x, &@)", "min_by(x, &@)", "join('', sort(x))", "reverse(sort(x))"] {
+                call(f, &d, &mut st);
+            }
         }
     }
     // array[number] functions
@@ -403,7 +518,7 @@ pub fn run(tier: Tier) -> i32 {
     }
     // size ladder: long arrays through every array-consuming builtin, with calls before and after
     {
-        let sizes: Vec<usize> = tier.pick(vec![64, 100, 127, 128, 129, 200, 256, 257, 1000], vec![64, 100, 127, 128, 129, 200, 255, 256, 257, 300, 1000, 1024, 4096, 5000, 65536]);
+        let sizes: Vec<usize> = tier.pick((6..=40).chain([63, 64, 65, 100, 127, 128, 129, 200, 256, 257, 1000]).collect::<Vec<usize>>(), (6..=70).chain([100, 127, 128, 129, 200, 255, 256, 257, 300, 511, 512, 513, 1000, 1023, 1024, 1025, 4096, 5000, 65536]).collect::<Vec<usize>>());
         let sz = par_sweep(sizes, |&n, st| {
             let objs: Vec<Value> = (0..n).map(|i| json!({"k": (i * 7 + 3) % 5, "s": format!("s{}", (i * 11) % 7), "i": i})).collect();
             let nums: Vec<Value> = (0..n).map(|i| json!(((i * 13 + 5) % 17) as i64 - 8)).collect();
